@@ -155,7 +155,8 @@ def documents(xml=False, max_leaves=25):
     selfc = st.builds(lambda nm, a, ws: {'t': 'el', 'kind': 'self', 'name': nm, 'attrs': a, 'ws': ws}, st.sampled_from(NAMES + VOID), attrs, st.sampled_from(['', ' ']))
     leaves = [text, text, comment, void, selfc, selfc]
     if True:
-        body = st.sampled_from(['', 'var a = "<div>";', 'if (a</b>) {}', '<p>', 'x<y', '<!-- </x> -->', 'a{b:c}', '</scrip>', '</ script>'])
+        body = st.sampled_from(['', 'var a = "<div>";', 'if (a</b>) {}', '<p>', 'x<y', '<!-- </x> -->', 'a{b:c}', '</scrip>', '</ script>',
+                                 'ok = 1 <', 'var s = "<" + "</', '/* <b> </', '<', '</', '</scrip', 'a</sty'])
         def special(nm, typ, a, b):
             at = [x for x in a if x[1] != 'type']
             if nm == 'script' and typ is not None:
